@@ -44,6 +44,9 @@ def gen_case(rng, shape_name, with_override, with_sugar, with_alias):
     for i, imps in shape.items():
         for j in imps:
             aliases[i][j] = (FNAMES[j][0] + "x") if (with_alias and rng.random() < 0.5) else FNAMES[j]
+    # which files declare the terminal TT (the same bare name with a different recognizer in each file); decided first: TT is also used as a
+    # SEPARATOR, by its local name or through an import (finding D32: helper rules are named after the separator's local name only)
+    has_tt = {i: rng.random() < 0.5 for i in range(nfiles)}
     tcount = [0]
 
     def fresh_text(i):
@@ -64,7 +67,7 @@ def gen_case(rng, shape_name, with_override, with_sugar, with_alias):
         terms = []
         if rng.random() < 0.6:
             terms.append({"name": "T%d" % i, "text": "t%d" % i})
-        if rng.random() < 0.5:
+        if has_tt[i]:
             # the SAME bare terminal name in several files, with a different recognizer in each (qualified names keep them apart)
             terms.append({"name": "TT", "text": "u%d" % i})
         for n in defs[i]:
@@ -76,11 +79,16 @@ def gen_case(rng, shape_name, with_override, with_sugar, with_alias):
                     if r < 0.3:
                         alt.append({"kind": "str", "text": rng.choice(["x", "y", fresh_text(i)])})
                     elif r < 0.4 and terms:
-                        alt.append({"kind": "ref", "parts": [rng.choice(terms)["name"]], "mult": ""})
+                        alt.append({"kind": "ref", "parts": [rng.choice(terms)["name"]], "mult": "", "sep": []})
                     else:
                         mods, name, _j = rng.choice(reach_refs(i))
                         mult = rng.choice(["+", "*", "?"]) if (with_sugar and rng.random() < 0.3) else ""
-                        alt.append({"kind": "ref", "parts": list(mods) + [name], "mult": mult})
+                        sep = []
+                        if mult in ("+", "*") and rng.random() < 0.5:
+                            seps = ([["TT"]] if has_tt[i] else []) + [[aliases[i][j], "TT"] for j in shape[i] if has_tt[j]]
+                            if seps:
+                                sep = rng.choice(seps)
+                        alt.append({"kind": "ref", "parts": list(mods) + [name], "mult": mult, "sep": sep})
                 alts.append(alt)
             if with_sugar and rng.random() < 0.3:
                 # named matches (the rule's default action builds an object): also in IMPORTED files (finding D31)
@@ -122,7 +130,7 @@ def file_text(f, me="root", dirs=None):
             out += "@%s\n" % r["action"]
         alts = []
         for alt in r["alts"]:
-            alts.append(" ".join((it["name"] + "=" if it.get("name") else "") + (('"%s"' % it["text"]) if it["kind"] == "str" else ".".join(it["parts"]) + it["mult"])
+            alts.append(" ".join((it["name"] + "=" if it.get("name") else "") + (('"%s"' % it["text"]) if it["kind"] == "str" else ".".join(it["parts"]) + it["mult"] + ("[%s]" % ".".join(it["sep"]) if it.get("sep") else ""))
                                  for it in alt) or "EMPTY")
         out += "%s: %s;\n" % (".".join(r["name"]), " | ".join(alts))
     if f["terms"]:
@@ -164,14 +172,16 @@ def worker(job):
         for name, alts in by_lhs.items():
             k = helper_kind(name)
             if k == "collect" and sorted(map(len, alts)) == [1, 2]:
-                helpers[name] = {"base": [a for a in alts if len(a) == 1][0][0], "mult": "+"}
+                helpers[name] = {"base": [a for a in alts if len(a) == 1][0][0], "mult": "+", "sep": ""}
+            elif k == "collect_sep" and sorted(map(len, alts)) == [1, 3]:
+                helpers[name] = {"base": [a for a in alts if len(a) == 1][0][0], "mult": "+", "sep": [a for a in alts if len(a) == 3][0][1]}
             elif k == "optional" and sorted(map(len, alts)) == [0, 1]:
-                helpers[name] = {"base": [a for a in alts if len(a) == 1][0][0], "mult": "?"}
+                helpers[name] = {"base": [a for a in alts if len(a) == 1][0][0], "mult": "?", "sep": ""}
         for name, alts in by_lhs.items():
             if helper_kind(name) == "zero" and sorted(map(len, alts)) == [0, 1]:
                 one = [a for a in alts if len(a) == 1][0][0]
                 if one in helpers:
-                    helpers[name] = {"base": helpers[one]["base"], "mult": "*"}
+                    helpers[name] = {"base": helpers[one]["base"], "mult": "*", "sep": helpers[one]["sep"]}
         case["helpers"] = helpers
         # named matches: positions projected from the loaded productions (trusted); a rule with named matches builds an object by default
         case["assign"] = [sorted([{"name": a.name, "op": a.op, "idx": a.index + 1} for a in (p.assignments or {}).values()], key=lambda x: x["name"]) for p in g.productions]
@@ -312,7 +322,7 @@ def _jobs(tier, seed):
                      "files": files, "origin": "det" if i % 4 else "rand", "seed": r.randrange(1 << 30), "shape": shape, "override": ov, "dirs": dl})
     # directed templates: the same local rule name under repetition sugar in two imported files (alternative numbering of helper rules per symbol)
     def ref(parts, mult=""):
-        return {"kind": "ref", "parts": parts, "mult": mult}
+        return {"kind": "ref", "parts": parts, "mult": mult, "sep": []}
 
     def st(t):
         return {"kind": "str", "text": t}
@@ -329,6 +339,14 @@ def _jobs(tier, seed):
         for dl in (0, 1):
             jobs.append({"name": "template-same-local-name#%d%s" % (k, " dirs%d" % dl if dl else ""), "actions": {"base.L": "collect", "mid.L": "collect"} if k % 2 else {}, "files": files, "origin": "det", "seed": 77 + k, "shape": "tree3",
                          "override": False, "dirs": dl})
+    # directed template (finding D32): the same base symbol repeated with separators that have the same local name in two files
+    def refs(parts, mult, sep):
+        return {"kind": "ref", "parts": parts, "mult": mult, "sep": sep}
+    for k, (m1, m2) in enumerate([("+", "+"), ("*", "+"), ("+", "*")]):
+        files = {"root": {"imports": [{"alias": "base", "target": "base"}],
+                          "rules": [{"name": ["S"], "alts": [[refs(["base", "L"], m1, ["TT"]), st("x"), ref(["base", "X"])]]}], "terms": [{"name": "TT", "text": "u0"}]},
+                 "base": {"imports": [], "rules": [{"name": ["X"], "alts": [[refs(["L"], m2, ["TT"])]]}, {"name": ["L"], "alts": [[st("b1")]]}], "terms": [{"name": "TT", "text": "u1"}]}}
+        jobs.append({"name": "template-separator-local-name#%d" % k, "files": files, "origin": "det", "seed": 90 + k, "shape": "chain2", "override": False, "dirs": 0})
     return jobs
 
 
